@@ -97,7 +97,7 @@ class Model:
         opidx=[self.ops.index(o) for o in nof.operators]
         occ=self.occ[:,opidx] if len(opidx) else np.zeros((self.D,0))
         with np.errstate(all='ignore'):
-            out=np.array([complex(f(*[int(x) for x in row])) for row in occ]) if syms else np.full(self.D,complex(c))
+            out=np.array([complex(f(*[np.float64(x) for x in row])) for row in occ]) if syms else np.full(self.D,complex(c))
         return np.diag(out)
     def nof(self, x, subs=None):
         out=np.zeros((self.D,self.D),complex)
